@@ -10,28 +10,33 @@ theorem closeWith_snd (o : List Out) : (closeWith o).2 = o := rfl
 /-! ### equations -/
 
 section eqs
-variable {cfg : Cfg} {env : Env} {s : St} {name nonce : Bytes}
+variable {cfg : Cfg} {env : Env} {s : St} {name nonce : Bytes} {key : KeyClass}
 
-theorem loginStep_undecodable (hd : decodable name = false) : loginStep cfg name nonce = closeWith [.close] := by
+theorem loginStep_undecodable (hd : decodable name = false) : loginStep cfg name nonce key = closeWith [.close] := by
   simp [loginStep, hd]
 theorem loginStep_badname (hd : decodable name = true) (hv : validName name = false) :
-    loginStep cfg name nonce = closeWith [.disconnect .badName] := by
+    loginStep cfg name nonce key = closeWith [.disconnect .badName] := by
   simp [loginStep, hd, hv]
-theorem loginStep_denied (hd : decodable name = true) (hv : validName name = true) (hden : cfg.preLogin name = .denied) :
-    loginStep cfg name nonce = closeWith [.preLoginEvent name, .disconnect .denied] := by
-  simp [loginStep, hd, hv, hden]
-theorem loginStep_wait (hd : decodable name = true) (hv : validName name = true) (hden : cfg.preLogin name ≠ .denied)
-    (hk : cfg.preMsgs name ≠ 0) :
-    loginStep cfg name nonce =
-      ({ phase := .waiting, name := name, verify := nonce, outstanding := msgIds (cfg.preMsgs name) },
+theorem loginStep_keyreject {r : Reason} (hd : decodable name = true) (hv : validName name = true)
+    (hk : keyReject cfg key = some r) : loginStep cfg name nonce key = closeWith [.disconnect r] := by
+  simp [loginStep, hd, hv, hk]
+theorem loginStep_denied (hd : decodable name = true) (hv : validName name = true) (hkr : keyReject cfg key = none)
+    (hden : cfg.preLogin name = .denied) :
+    loginStep cfg name nonce key = closeWith [.preLoginEvent name, .disconnect .denied] := by
+  simp [loginStep, hd, hv, hkr, hden]
+theorem loginStep_wait (hd : decodable name = true) (hv : validName name = true) (hkr : keyReject cfg key = none)
+    (hden : cfg.preLogin name ≠ .denied) (hk : cfg.preMsgs name ≠ 0) :
+    loginStep cfg name nonce key =
+      ({ phase := .waiting, name := name, verify := nonce, outstanding := msgIds (cfg.preMsgs name),
+         hasKey := effKey cfg key == .valid },
        .preLoginEvent name :: (msgIds (cfg.preMsgs name)).map .pluginMsg) := by
-  simp [loginStep, hd, hv, hden, hk]
-theorem loginStep_now (hd : decodable name = true) (hv : validName name = true) (hden : cfg.preLogin name ≠ .denied)
-    (hk : cfg.preMsgs name = 0) :
-    loginStep cfg name nonce =
-      ((complete cfg { phase := .waiting, name := name, verify := nonce, outstanding := [] }).1,
-       .preLoginEvent name :: (complete cfg { phase := .waiting, name := name, verify := nonce, outstanding := [] }).2) := by
-  simp [loginStep, hd, hv, hden, hk, msgIds]
+  simp [loginStep, hd, hv, hkr, hden, hk]
+theorem loginStep_now (hd : decodable name = true) (hv : validName name = true) (hkr : keyReject cfg key = none)
+    (hden : cfg.preLogin name ≠ .denied) (hk : cfg.preMsgs name = 0) :
+    loginStep cfg name nonce key =
+      ((complete cfg { phase := .waiting, name := name, verify := nonce, outstanding := [], hasKey := effKey cfg key == .valid }).1,
+       .preLoginEvent name :: (complete cfg { phase := .waiting, name := name, verify := nonce, outstanding := [], hasKey := effKey cfg key == .valid }).2) := by
+  simp [loginStep, hd, hv, hkr, hden, hk, msgIds]
 
 theorem complete_auth (h : needsAuth cfg s.name = true) :
     complete cfg s = ({ s with phase := .encSent, outstanding := [] }, [.encReq s.verify]) := by
@@ -52,44 +57,47 @@ theorem pluginStep_last {id : Int} (h : s.outstanding.contains id = true)
       .consumed id :: (complete cfg { s with outstanding := [] }).2) := by
   simp only [pluginStep, h, hr]; rfl
 
-theorem encStep_noverify {tok secret} (he : s.verify.isEmpty = true) : encStep cfg env s tok secret = closeWith [.close] := by
+theorem encStep_noverify {tok secret} {salt sg : Bool} (he : s.verify.isEmpty = true) :
+    encStep cfg env s tok secret salt sg = closeWith [.close] := by
   simp [encStep, he]
-theorem encStep_badtoken {tok secret} (he : s.verify.isEmpty = false) (ht : tok ≠ some s.verify) :
-    encStep cfg env s tok secret = closeWith [.close] := by
+theorem encStep_badtoken {tok secret} {salt sg : Bool} (he : s.verify.isEmpty = false) (ht : tokenOk s tok salt sg = false) :
+    encStep cfg env s tok secret salt sg = closeWith [.close] := by
   simp [encStep, he, ht]
-theorem encStep_nosecret (he : s.verify.isEmpty = false) : encStep cfg env s (some s.verify) none = closeWith [.close] := by
-  simp [encStep, he]
-theorem encStep_badlen {sec : Bytes} (he : s.verify.isEmpty = false) (hk : keyLenOk sec.length = false) :
-    encStep cfg env s (some s.verify) (some sec) = closeWith [.disconnect .internal] := by
-  simp [encStep, he, hk]
-theorem encStep_error {sec : Bytes} (he : s.verify.isEmpty = false) (hk : keyLenOk sec.length = true)
-    (hs : env.sess s.name sec = .error) :
-    encStep cfg env s (some s.verify) (some sec) = closeWith [.encOn sec, .hasJoined s.name sec, .disconnect .unable] := by
-  simp [encStep, he, hk, hs]
-theorem encStep_offline {sec : Bytes} (he : s.verify.isEmpty = false) (hk : keyLenOk sec.length = true)
-    (hs : env.sess s.name sec = .offline) :
-    encStep cfg env s (some s.verify) (some sec) = closeWith [.encOn sec, .hasJoined s.name sec, .disconnect .onlineOnly] := by
-  simp [encStep, he, hk, hs]
-theorem encStep_badprofile {sec : Bytes} (he : s.verify.isEmpty = false) (hk : keyLenOk sec.length = true)
-    (hs : env.sess s.name sec = .badProfile) :
-    encStep cfg env s (some s.verify) (some sec) = closeWith [.encOn sec, .hasJoined s.name sec, .disconnect .unable] := by
-  simp [encStep, he, hk, hs]
-theorem encStep_online {sec : Bytes} (he : s.verify.isEmpty = false) (hk : keyLenOk sec.length = true)
-    (hs : env.sess s.name sec = .online) :
-    encStep cfg env s (some s.verify) (some sec) =
+theorem encStep_nosecret {tok} {salt sg : Bool} (he : s.verify.isEmpty = false) (ht : tokenOk s tok salt sg = true) :
+    encStep cfg env s tok none salt sg = closeWith [.close] := by
+  simp [encStep, he, ht]
+theorem encStep_badlen {tok} {salt sg : Bool} {sec : Bytes} (he : s.verify.isEmpty = false) (ht : tokenOk s tok salt sg = true)
+    (hk : keyLenOk sec.length = false) :
+    encStep cfg env s tok (some sec) salt sg = closeWith [.disconnect .internal] := by
+  simp [encStep, he, ht, hk]
+theorem encStep_error {tok} {salt sg : Bool} {sec : Bytes} (he : s.verify.isEmpty = false) (ht : tokenOk s tok salt sg = true)
+    (hk : keyLenOk sec.length = true) (hs : env.sess s.name sec = .error) :
+    encStep cfg env s tok (some sec) salt sg = closeWith [.encOn sec, .hasJoined s.name sec, .disconnect .unable] := by
+  simp [encStep, he, ht, hk, hs]
+theorem encStep_offline {tok} {salt sg : Bool} {sec : Bytes} (he : s.verify.isEmpty = false) (ht : tokenOk s tok salt sg = true)
+    (hk : keyLenOk sec.length = true) (hs : env.sess s.name sec = .offline) :
+    encStep cfg env s tok (some sec) salt sg = closeWith [.encOn sec, .hasJoined s.name sec, .disconnect .onlineOnly] := by
+  simp [encStep, he, ht, hk, hs]
+theorem encStep_badprofile {tok} {salt sg : Bool} {sec : Bytes} (he : s.verify.isEmpty = false) (ht : tokenOk s tok salt sg = true)
+    (hk : keyLenOk sec.length = true) (hs : env.sess s.name sec = .badProfile) :
+    encStep cfg env s tok (some sec) salt sg = closeWith [.encOn sec, .hasJoined s.name sec, .disconnect .unable] := by
+  simp [encStep, he, ht, hk, hs]
+theorem encStep_online {tok} {salt sg : Bool} {sec : Bytes} (he : s.verify.isEmpty = false) (ht : tokenOk s tok salt sg = true)
+    (hk : keyLenOk sec.length = true) (hs : env.sess s.name sec = .online) :
+    encStep cfg env s tok (some sec) salt sg =
       ({ s with phase := .successSent }, [.encOn sec, .hasJoined s.name sec] ++ admitSeq cfg s.name true) := by
-  simp [encStep, he, hk, hs]
+  simp [encStep, he, ht, hk, hs]
 
-theorem step_login_expect (hp : s.phase = .expect) : step cfg env s (.login name nonce) = loginStep cfg name nonce := by
+theorem step_login_expect (hp : s.phase = .expect) : step cfg env s (.login name nonce key) = loginStep cfg name nonce key := by
   simp [step, hp]
 theorem step_login_wrong (h : s.phase = .waiting ∨ s.phase = .encSent ∨ s.phase = .successSent) :
-    step cfg env s (.login name nonce) = closeWith [.close] := by
+    step cfg env s (.login name nonce key) = closeWith [.close] := by
   rcases h with h | h | h <;> simp [step, h]
-theorem step_enc_encSent {tok secret} (hp : s.phase = .encSent) :
-    step cfg env s (.encResp tok secret) = encStep cfg env s tok secret := by
+theorem step_enc_encSent {tok secret} {salt sg : Bool} (hp : s.phase = .encSent) :
+    step cfg env s (.encResp tok secret salt sg) = encStep cfg env s tok secret (cfg.keyEra && salt) sg := by
   simp [step, hp]
-theorem step_enc_wrong {tok secret} (h : s.phase = .expect ∨ s.phase = .waiting ∨ s.phase = .successSent) :
-    step cfg env s (.encResp tok secret) = closeWith [.close] := by
+theorem step_enc_wrong {tok secret} {salt sg : Bool} (h : s.phase = .expect ∨ s.phase = .waiting ∨ s.phase = .successSent) :
+    step cfg env s (.encResp tok secret salt sg) = closeWith [.close] := by
   rcases h with h | h | h <;> simp [step, h]
 theorem step_plugin_waiting {id : Int} (hp : s.phase = .waiting) : step cfg env s (.pluginResp id) = pluginStep cfg s id := by
   simp [step, hp]
@@ -138,38 +146,45 @@ theorem preamble_snoc (cfg : Cfg) (name : Bytes) (cs : List Int) (id : Int) :
 theorem admitSeq_adm (cfg : Cfg) (n : Bytes) (o : Bool) : (admitSeq cfg n o).any (isAuthAdm cfg) = needsAuth cfg n := by
   cases hc : cfg.compression <;> simp [admitSeq, hc, isAuthAdm]
 
+/-- what the client proved about the verify token: with a (valid) profile key a salted response whose signature
+    over (token, salt) verifies; without a key a token field that decrypts to exactly the issued token -/
+def TokenProof (cfg : Cfg) (key : KeyClass) (nonce : Bytes) (tok : Option Bytes) (salt sg : Bool) : Prop :=
+  if effKey cfg key = .valid then (cfg.keyEra = true ∧ salt = true ∧ sg = true) else tok = some nonce
+
 def Good (cfg : Cfg) (env : Env) (done : List In) (outs : List Out) : Prop :=
   outs.any (isAuthAdm cfg) = false ∨
-  ∃ name cs nonce sec tail, outs = chain cfg name cs nonce sec ++ tail ∧ tail.any (isAuthAdm cfg) = false ∧
-    In.login name nonce ∈ done ∧ In.encResp (some nonce) (some sec) ∈ done ∧
+  ∃ name key cs nonce sec tok salt sg tail, outs = chain cfg name cs nonce sec ++ tail ∧ tail.any (isAuthAdm cfg) = false ∧
+    In.login name nonce key ∈ done ∧ In.encResp tok (some sec) salt sg ∈ done ∧ TokenProof cfg key nonce tok salt sg ∧
     env.sess name sec = .online ∧ keyLenOk sec.length = true ∧ validName name = true ∧ needsAuth cfg name = true
 
 structure Inv (cfg : Cfg) (env : Env) (done : List In) (s : St) (outs : List Out) : Prop where
   expect : s.phase = .expect → outs = []
   waiting : s.phase = .waiting →
-    ∃ cs, outs = preamble cfg s.name cs ∧ In.login s.name s.verify ∈ done ∧ validName s.name = true
+    ∃ cs key, outs = preamble cfg s.name cs ∧ In.login s.name s.verify key ∈ done ∧ validName s.name = true ∧
+      s.hasKey = (effKey cfg key == .valid)
   encSent : s.phase = .encSent →
-    ∃ cs, outs = preamble cfg s.name cs ++ [.encReq s.verify] ∧ In.login s.name s.verify ∈ done ∧
-      validName s.name = true ∧ needsAuth cfg s.name = true
+    ∃ cs key, outs = preamble cfg s.name cs ++ [.encReq s.verify] ∧ In.login s.name s.verify key ∈ done ∧
+      validName s.name = true ∧ needsAuth cfg s.name = true ∧ s.hasKey = (effKey cfg key == .valid)
   good : Good cfg env done outs
 
 theorem good_mono {cfg env done outs} (i : In) (extra : List Out) (h : Good cfg env done outs)
     (he : extra.any (isAuthAdm cfg) = false) : Good cfg env (done ++ [i]) (outs ++ extra) := by
-  rcases h with h | ⟨name, cs, nonce, sec, tail, ho, ht, h1, h2, h3, h4, h5, h6⟩
+  rcases h with h | ⟨name, key, cs, nonce, sec, tok, salt, sg, tail, ho, ht, h1, h2, hp, h3, h4, h5, h6⟩
   · left; simp [List.any_append, h, he]
   · right
-    refine ⟨name, cs, nonce, sec, tail ++ extra, by simp [ho], by simp [List.any_append, ht, he], ?_, ?_, h3, h4, h5, h6⟩
+    refine ⟨name, key, cs, nonce, sec, tok, salt, sg, tail ++ extra, by simp [ho], by simp [List.any_append, ht, he], ?_, ?_, hp, h3, h4, h5, h6⟩
     · simp [h1]
     · simp [h2]
 
 /-- running the completion callback from the deferred phase establishes the invariant -/
-theorem complete_inv (cfg : Cfg) (env : Env) (done : List In) (st : St) (cs : List Int)
-    (hlog : In.login st.name st.verify ∈ done) (hv : validName st.name = true) :
+theorem complete_inv (cfg : Cfg) (env : Env) (done : List In) (st : St) (cs : List Int) (key : KeyClass)
+    (hlog : In.login st.name st.verify key ∈ done) (hv : validName st.name = true)
+    (hkey : st.hasKey = (effKey cfg key == .valid)) :
     Inv cfg env done (complete cfg st).1 (preamble cfg st.name cs ++ (complete cfg st).2) := by
   cases hn : needsAuth cfg st.name with
   | true =>
     rw [complete_auth hn]
-    refine ⟨by intro h; simp at h, by intro h; simp at h, fun _ => ⟨cs, rfl, hlog, hv, hn⟩, Or.inl ?_⟩
+    refine ⟨by intro h; simp at h, by intro h; simp at h, fun _ => ⟨cs, key, rfl, hlog, hv, hn, hkey⟩, Or.inl ?_⟩
     simp [List.any_append, preamble_noadm, isAuthAdm]
   | false =>
     rw [complete_offline hn]
@@ -187,14 +202,14 @@ theorem inv_step (cfg : Cfg) (env : Env) {done : List In} {s : St} {outs : List 
     exact good_mono i extra hI.good he
   have hsame : Inv cfg env (done ++ [i]) s (outs ++ []) := by
     refine ⟨by intro h; simpa using hI.expect h, ?_, ?_, by simpa using good_mono i [] hI.good rfl⟩
-    · intro h; obtain ⟨cs, h1, h2, h3⟩ := hI.waiting h
-      exact ⟨cs, by simp [h1], by simp [h2], h3⟩
-    · intro h; obtain ⟨cs, h1, h2, h3, h4⟩ := hI.encSent h
-      exact ⟨cs, by simp [h1], by simp [h2], h3, h4⟩
+    · intro h; obtain ⟨cs, key, h1, h2, h3, h4⟩ := hI.waiting h
+      exact ⟨cs, key, by simp [h1], by simp [h2], h3, h4⟩
+    · intro h; obtain ⟨cs, key, h1, h2, h3, h4, h5⟩ := hI.encSent h
+      exact ⟨cs, key, by simp [h1], by simp [h2], h3, h4, h5⟩
   by_cases hdone : s.phase = .closed ∨ s.phase = .config
   · rw [step_done i hdone]; exact hsame
   cases i with
-  | login name nonce =>
+  | login name nonce key =>
     by_cases hw : s.phase = .waiting ∨ s.phase = .encSent ∨ s.phase = .successSent
     · rw [step_login_wrong hw]; exact hclose _ rfl
     · have hp : s.phase = .expect := by cases h : s.phase <;> simp [h] at hdone hw ⊢
@@ -207,20 +222,24 @@ theorem inv_step (cfg : Cfg) (env : Env) {done : List In} {s : St} {outs : List 
         cases hv : validName name with
         | false => rw [loginStep_badname hd hv]; exact hclose _ rfl
         | true =>
+          cases hkr : keyReject cfg key with
+          | some r => rw [loginStep_keyreject hd hv hkr]; exact hclose _ rfl
+          | none =>
           by_cases hden : cfg.preLogin name = .denied
-          · rw [loginStep_denied hd hv hden]; exact hclose _ rfl
+          · rw [loginStep_denied hd hv hkr hden]; exact hclose _ rfl
           · by_cases hk : cfg.preMsgs name = 0
-            · rw [loginStep_now hd hv hden hk]
-              have := complete_inv cfg env (done ++ [In.login name nonce])
-                { phase := .waiting, name := name, verify := nonce, outstanding := [] } [] (by simp) hv
+            · rw [loginStep_now hd hv hkr hden hk]
+              have := complete_inv cfg env (done ++ [In.login name nonce key])
+                { phase := .waiting, name := name, verify := nonce, outstanding := [], hasKey := effKey cfg key == .valid }
+                [] key (by simp) hv rfl
               simpa [preamble, hk, msgIds] using this
-            · rw [loginStep_wait hd hv hden hk]
-              refine ⟨by intro h; simp at h, fun _ => ⟨[], by simp [preamble], by simp, hv⟩, by intro h; simp at h, Or.inl ?_⟩
+            · rw [loginStep_wait hd hv hkr hden hk]
+              refine ⟨by intro h; simp at h, fun _ => ⟨[], key, by simp [preamble], by simp, hv, rfl⟩, by intro h; simp at h, Or.inl ?_⟩
               have := preamble_noadm cfg name []
               simpa [preamble] using this
   | pluginResp id =>
     by_cases hp : s.phase = .waiting
-    · obtain ⟨cs, ho, hin, hv⟩ := hI.waiting hp
+    · obtain ⟨cs, key, ho, hin, hv, hkey⟩ := hI.waiting hp
       rw [step_plugin_waiting hp]
       cases hc : s.outstanding.contains id with
       | false => rw [pluginStep_unknown hc]; exact hsame
@@ -228,43 +247,50 @@ theorem inv_step (cfg : Cfg) (env : Env) {done : List In} {s : St} {outs : List 
         cases hr : (s.outstanding.filter (· != id)).isEmpty with
         | false =>
           rw [pluginStep_more hc hr]
-          refine ⟨by intro h; simp [hp] at h, fun _ => ⟨cs ++ [id], by simp [ho, preamble_snoc], by simp [hin], hv⟩,
+          refine ⟨by intro h; simp [hp] at h, fun _ => ⟨cs ++ [id], key, by simp [ho, preamble_snoc], by simp [hin], hv, hkey⟩,
             by intro h; simp [hp] at h, good_mono _ _ hI.good (by simp [isAuthAdm])⟩
         | true =>
           rw [pluginStep_last hc hr]
-          have := complete_inv cfg env (done ++ [In.pluginResp id]) { s with outstanding := [] } (cs ++ [id])
-            (by simp [hin]) hv
+          have := complete_inv cfg env (done ++ [In.pluginResp id]) { s with outstanding := [] } (cs ++ [id]) key
+            (by simp [hin]) hv hkey
           simpa [ho, preamble_snoc, List.append_assoc] using this
     · rw [step_plugin_other hp]; exact hsame
-  | encResp tok secret =>
+  | encResp tok secret salt sg =>
     by_cases hw : s.phase = .expect ∨ s.phase = .waiting ∨ s.phase = .successSent
     · rw [step_enc_wrong hw]; exact hclose _ rfl
     · have hp : s.phase = .encSent := by cases h : s.phase <;> simp [h] at hdone hw ⊢
-      obtain ⟨cs, ho, hin, hv, hn⟩ := hI.encSent hp
+      obtain ⟨cs, key, ho, hin, hv, hn, hkey⟩ := hI.encSent hp
       rw [step_enc_encSent hp]
       cases he : s.verify.isEmpty with
       | true => rw [encStep_noverify he]; exact hclose _ rfl
       | false =>
-        by_cases ht : tok = some s.verify
-        · subst ht
+        cases ht : tokenOk s tok (cfg.keyEra && salt) sg with
+        | false => rw [encStep_badtoken he ht]; exact hclose _ rfl
+        | true =>
           cases secret with
-          | none => rw [encStep_nosecret he]; exact hclose _ rfl
+          | none => rw [encStep_nosecret he ht]; exact hclose _ rfl
           | some sec =>
             cases hk : keyLenOk sec.length with
-            | false => rw [encStep_badlen he hk]; exact hclose _ rfl
+            | false => rw [encStep_badlen he ht hk]; exact hclose _ rfl
             | true =>
               cases hs : env.sess s.name sec with
-              | error => rw [encStep_error he hk hs]; exact hclose _ rfl
-              | offline => rw [encStep_offline he hk hs]; exact hclose _ rfl
-              | badProfile => rw [encStep_badprofile he hk hs]; exact hclose _ rfl
+              | error => rw [encStep_error he ht hk hs]; exact hclose _ rfl
+              | offline => rw [encStep_offline he ht hk hs]; exact hclose _ rfl
+              | badProfile => rw [encStep_badprofile he ht hk hs]; exact hclose _ rfl
               | online =>
-                rw [encStep_online he hk hs]
+                rw [encStep_online he ht hk hs]
+                have hproof : TokenProof cfg key s.verify tok salt sg := by
+                  unfold TokenProof
+                  unfold tokenOk at ht
+                  rw [hkey] at ht
+                  by_cases hkv : effKey cfg key = .valid
+                  · simp [hkv] at ht ⊢; exact ⟨ht.1.1, ht.1.2, ht.2⟩
+                  · simp [hkv] at ht ⊢; exact ht
                 refine ⟨by intro h; simp at h, by intro h; simp at h, by intro h; simp at h,
-                  Or.inr ⟨s.name, cs, s.verify, sec, [], ?_, rfl, ?_, ?_, hs, hk, hv, hn⟩⟩
+                  Or.inr ⟨s.name, key, cs, s.verify, sec, tok, salt, sg, [], ?_, rfl, ?_, ?_, hproof, hs, hk, hv, hn⟩⟩
                 · simp [ho, chain, List.append_assoc]
                 · simp [hin]
                 · simp
-        · rw [encStep_badtoken he ht]; exact hclose _ rfl
   | ack =>
     by_cases hw : s.phase = .expect ∨ s.phase = .waiting ∨ s.phase = .encSent
     · rw [step_ack_wrong hw]; exact hclose _ rfl
@@ -349,7 +375,7 @@ theorem step_success (cfg : Cfg) (env : Env) (s : St) (i : In) :
   by_cases hdone : s.phase = .closed ∨ s.phase = .config
   · exact hnop i (step_done i hdone)
   cases i with
-  | login name nonce =>
+  | login name nonce key =>
     by_cases hw : s.phase = .waiting ∨ s.phase = .encSent ∨ s.phase = .successSent
     · rw [step_login_wrong hw]; exact hcl _ rfl
     · have hp : s.phase = .expect := by cases h : s.phase <;> simp [h] at hdone hw ⊢
@@ -360,16 +386,19 @@ theorem step_success (cfg : Cfg) (env : Env) (s : St) (i : In) :
         cases hv : validName name with
         | false => rw [loginStep_badname hd hv]; exact hcl _ rfl
         | true =>
+          cases hkr : keyReject cfg key with
+          | some r => rw [loginStep_keyreject hd hv hkr]; exact hcl _ rfl
+          | none =>
           by_cases hden : cfg.preLogin name = .denied
-          · rw [loginStep_denied hd hv hden]; exact hcl _ rfl
+          · rw [loginStep_denied hd hv hkr hden]; exact hcl _ rfl
           · by_cases hk : cfg.preMsgs name = 0
-            · rw [loginStep_now hd hv hden hk]
-              have := complete_success cfg { phase := .waiting, name := name, verify := nonce, outstanding := [] }
+            · rw [loginStep_now hd hv hkr hden hk]
+              have := complete_success cfg { phase := .waiting, name := name, verify := nonce, outstanding := [], hasKey := effKey cfg key == .valid }
               rw [successCount_cons_other _ _ rfl]
               simp only [hp, rank_expect]
               refine ⟨by omega, ?_⟩
               simpa using this.2
-            · rw [loginStep_wait hd hv hden hk]
+            · rw [loginStep_wait hd hv hkr hden hk]
               rw [successCount_cons_other _ _ rfl, successCount_map_pluginMsg]
               simp [hp, rank]
   | pluginResp id =>
@@ -388,7 +417,7 @@ theorem step_success (cfg : Cfg) (env : Env) (s : St) (i : In) :
           refine ⟨by omega, ?_⟩
           simpa using this.2
     · exact hnop _ (step_plugin_other hp)
-  | encResp tok secret =>
+  | encResp tok secret salt sg =>
     by_cases hw : s.phase = .expect ∨ s.phase = .waiting ∨ s.phase = .successSent
     · rw [step_enc_wrong hw]; exact hcl _ rfl
     · have hp : s.phase = .encSent := by cases h : s.phase <;> simp [h] at hdone hw ⊢
@@ -396,24 +425,24 @@ theorem step_success (cfg : Cfg) (env : Env) (s : St) (i : In) :
       cases he : s.verify.isEmpty with
       | true => rw [encStep_noverify he]; exact hcl _ rfl
       | false =>
-        by_cases ht : tok = some s.verify
-        · subst ht
+        cases ht : tokenOk s tok (cfg.keyEra && salt) sg with
+        | false => rw [encStep_badtoken he ht]; exact hcl _ rfl
+        | true =>
           cases secret with
-          | none => rw [encStep_nosecret he]; exact hcl _ rfl
+          | none => rw [encStep_nosecret he ht]; exact hcl _ rfl
           | some sec =>
             cases hk : keyLenOk sec.length with
-            | false => rw [encStep_badlen he hk]; exact hcl _ rfl
+            | false => rw [encStep_badlen he ht hk]; exact hcl _ rfl
             | true =>
               cases hs : env.sess s.name sec with
-              | error => rw [encStep_error he hk hs]; exact hcl _ rfl
-              | offline => rw [encStep_offline he hk hs]; exact hcl _ rfl
-              | badProfile => rw [encStep_badprofile he hk hs]; exact hcl _ rfl
+              | error => rw [encStep_error he ht hk hs]; exact hcl _ rfl
+              | offline => rw [encStep_offline he ht hk hs]; exact hcl _ rfl
+              | badProfile => rw [encStep_badprofile he ht hk hs]; exact hcl _ rfl
               | online =>
-                rw [encStep_online he hk hs]
+                rw [encStep_online he ht hk hs]
                 have := admitSeq_successCount cfg s.name true
                 simp only [successCount] at this
                 simp [hp, rank, successCount, this]
-        · rw [encStep_badtoken he ht]; exact hcl _ rfl
   | ack =>
     by_cases hw : s.phase = .expect ∨ s.phase = .waiting ∨ s.phase = .encSent
     · rw [step_ack_wrong hw]; exact hcl _ rfl
